@@ -13,8 +13,10 @@ import os
 
 LEVEL = "model_checking"
 
-QUICK = ["q1", "q2", "q3", "q4"]
-THOROUGH = ["q2", "q3", "t1", "t2", "t3", "t4", "t5"]
+# cfgs relevant to result construction (all combinators, deep nesting, foreign tokens, token classes); two-rule
+# recursion cfgs (q2, t2) are left to C28
+QUICK = ["q1", "q3", "q4"]
+THOROUGH = ["q3", "q4", "t1", "t3", "t4", "t5"]
 
 
 def run(ctx):
